@@ -71,9 +71,9 @@ CHECKS = {
              "constant-propagating the mode, main(all)==main(joined), _1(all)==main(separate), _2(all)==_1(separate) as terms; "
              "file numbers and the <stem>_<n><ext> name; AlignedRest True exactly for second-pass rows; join eligibility = "
              "same orientation, same reference, gap <= maxDifference (inclusive) wired to --maxDifference; resolve consumes "
-             "every group member exactly once; the joined row is conflict resolution of the two parts' first segments with "
-             "the earlier part on the left and identity fields of the first part. Also: resolve receives exactly the reported first-pass ++ second-pass lists; saveAdditionalOutput writes exactly the rows it is given (no per-query filter). Round 3: the join returns a new record, leaves its parts untouched and holds only the two resolved segments.",
-        note="Byte equality of files across runs and 'union valid => joined == union' are declined.",
+             "every group member exactly once; the joined row is conflict resolution of one segment of each part with "
+             "the earlier part on the left and identity fields of the first part; nothing is carried over into it that was not resolved there (C08.6); every segment of both parts must reach it (C08.10, the structural necessary condition of 'joined == union when the union is valid': violated by the pinned code, listed as known finding K1 - KNOWN-FINDING line, exit 0). Also: resolve receives exactly the reported first-pass ++ second-pass lists; saveAdditionalOutput writes exactly the rows it is given (no per-query filter). Round 3: the join returns a new record, leaves its parts untouched and holds only the two resolved segments.",
+        note="Byte equality of files across runs is declined; of 'union valid => joined == union' only the necessary condition C08.10 (no segment of a part is dropped) is decided, not the value-level equality.",
         tech="static analysis: constant propagation of the mode through enumerated paths (R-PATH), term equality of mode outputs (R-TERM), exactly-one-consume (R-PATH)",
         ref="DESIGN.md section 4 C08"),
     "C09": dict(
